@@ -109,6 +109,12 @@ def composite_codec_get_coded_const_prefix(codec: CompositeCodec,
         else:
             break
 
+    # only the bytes which are completely determined by constants
+    # are part of the prefix
+    for i, used_mask_byte in enumerate(encode_state.used_mask):
+        if used_mask_byte != 0xff:
+            return encode_state.coded_message[:i]
+
     return encode_state.coded_message
 
 
